@@ -35,10 +35,11 @@ def const_pool():
     pool = [N("Int", n=tealtok.digits(v)) for v in ints]
     pool += [N("Int", n=tealtok.digits(tealtok.NAMED_INTS[e]), s="enum:" + e) for e in ("NoOp", "OptIn", "DeleteApplication", "pay", "appl", "axfer")]
     pool += [N("Int", n=tealtok.digits(int.from_bytes(tealtok.tmpl_value("TMPL_" + t, 3), "big")), s="tmpl:TMPL_" + t) for t in ("A", "B")]
-    raws = [b"", b"a", b"ab", b"\x00", b"\xff\x00", b"hello world", bytes(range(32)), b"a" * 64]
+    # lengths 1..5 and 8 give every length class of base32 (2, 4, 5, 7, 0 modulo 8 characters) and base64 (0, 1, 2 padding characters)
+    raws = [b"", b"a", b"ab", b"abc", b"abcd", b"abcde", b"12345678", b"\x00", b"\xff\x00", b"hello world", bytes(range(32)), b"a" * 64]
     for raw in raws:
-        for sp in (0, 1, 2, 3):
-            if sp == 3 and not raw:
+        for sp in (0, 1, 2, 3, 4):
+            if sp in (3, 4) and not raw:
                 continue
             nd = N("Bytes", "b", n=list(raw))
             nd["sp"] = sp
